@@ -249,6 +249,8 @@ def run(facts, res):
                     elif x[0] == "var":
                         x = x[3]
                     elif x[0] == "call" and callee_name(x) in VIEW and x[2]:
+                        if callee_name(x) == "index" and len(x[2]) > 1:
+                            _window_bounds(x[2][1], s_, res)
                         x = x[2][0]
                     elif x[0] == "param":
                         ok_ = x[1]
@@ -355,6 +357,38 @@ def run(facts, res):
                               "rebuild_array_order looks the cache up under %s, which is not the revision being examined at that point (a cursor from another "
                               "loop): the cached order of a different ancestor would be used and the edit scripts in between skipped" % fmt(k, 4), rb.loc(t.line))
         res.floor("E3", "cache lookups in the reconstruction", n_look, 2)
+        # E3e: one starting point per reconstruction. The order the edit scripts are applied to is taken from exactly one ancestor - the
+        # nearest one that is cached or stored in full - and the scripts collected are those above it. A second assignment of the
+        # starting order on the same path (a cached order installed after the collection stopped at a nearer full descriptor)
+        # applies the collected scripts to the wrong array, and only on replicas that happen to hold that cache entry.
+        ap_sites = [(bi, t) for bi, t in rb.calls() if t.callee is not None and t.callee.target() == "utils::apply_diff_patch" and t.args]
+        n3e = 0
+        for bi, t in ap_sites:
+            x = arg_term(rb, t, 0, 6)
+            while x[0] in ("ref", "deref", "cast"):
+                x = x[1]
+            if x[0] != "var":
+                continue
+            ol = x[1]
+            srcs = []
+            for d in du.defs.get(ol, []):
+                if d.kind != "assign" or d.place.proj:
+                    continue
+                tt = du.rvalue_term(d.rv, 14)
+                if contains_call(tt, "get_order"):
+                    srcs.append(d)
+            n3e += len(srcs)
+            twice = [(a_, b_) for a_ in srcs for b_ in srcs if a_ is not b_ and cfg.reaches(a_.block, b_.block)]
+            res.instance("E3", "the starting order of the reconstruction is assigned from one ancestor per path (%d source assignments, none reachable from another): %s" % (
+                len(srcs), not twice), rb.loc(t.line))
+            if twice:
+                a_, b_ = twice[0]
+                res.violation("E3", "array-rebuilder|starting-order-assigned-twice",
+                              "rebuild_array_order can assign the order the edit scripts start from twice on one path (%s, then %s): the scripts collected down to "
+                              "the first ancestor are applied to the order of another one" % (
+                                  rb.loc(rb.blocks[a_.block].stmts[a_.idx].line), rb.loc(rb.blocks[b_.block].stmts[b_.idx].line)),
+                              rb.loc(rb.blocks[b_.block].stmts[b_.idx].line))
+        res.floor("E3", "source assignments of the starting order", n3e, 2)
         # who-may-write: the reconstruction function is the only writer of the array cache
         writers = set()
         for ob in facts.repo_bodies():
@@ -385,6 +419,33 @@ def run(facts, res):
         res.instance("E3", "cache type: %s" % kty, None)
         if not ok:
             res.violation("E3", "cache-key-type", "the array cache is not keyed by Revision (%s)" % kty)
+
+
+def _window_bounds(r, site, res):
+    """E2f: a window `x[head .. x.len() - tail]` handed to the diff routine has ordered bounds only if the trimmed tail was measured on
+    what the head left over: a tail counted on the whole arrays, independently of the head, overlaps the head as soon as an element
+    repeats ([x,y,y,z] -> [x,y,z]: head 2, tail 2) and the slice expression panics while the version is being stored."""
+    while r[0] in ("ref", "deref", "cast", "var"):
+        r = r[3] if r[0] == "var" else r[1]
+    if r[0] != "agg" or not str(r[2]).startswith("Range") or len(r[3]) < 2:
+        return
+    start, end = r[3][0], r[3][1]
+    sv = {x[1] for x in walk(start) if x[0] == "var"}
+    if not sv:
+        return
+    for x in walk(end):
+        if x[0] == "binop" and x[1].startswith("Sub") and contains_call(x[2], "len"):
+            tv = {y[1] for y in walk(x[3]) if y[0] == "var"}
+            tcalls = {callee_name(y) for y in walk(x[3]) if y[0] == "call"}
+            if not tcalls & {"count", "position", "len", "rposition"}:
+                continue
+            dep = bool(sv & tv)
+            res.instance("E2", "window handed to the diff routine: the trimmed tail (%s) is measured on what the head (%s) left over: %s" % (
+                fmt(x[3], 3), fmt(start, 3), dep), site.loc())
+            if not dep:
+                res.violation("E2", "diff-maker|window-bounds-independent",
+                              "make_diff_patch cuts the window [%s .. len - %s] with a tail measured independently of the head: on arrays with a repeated "
+                              "element the two overlap, the bounds are inverted and the slice panics while the version is stored" % (fmt(start, 3), fmt(x[3], 3)), site.loc())
 
 
 def thorough(res):
